@@ -85,12 +85,16 @@ CLAIMS = {
         "technique": "contract-based deductive verification (Verus) of the extracted real function + spec-level lemmas",
         "text": "Unbounded proof that push_js_string appends exactly one string literal whose decoded value is the "
                 "string, for every text, and that the emitted text contains no '<', no raw quote, no control or line "
-                "terminator character (cannot close the script element or leave the literal); and that the body of the "
-                "loop of RegisterCtx::to_array (lifted verbatim, rule E3) appends for one unit exactly "
-                "{\"locale\":..,\"id\":..|null,\"values\":[its strings in order, comma separated]}.",
-        "note": "Not covered: the outer loop of RegisterCtx::to_array (Mutex<HashMap>, generic L), which units are "
-                "registered (generated code), HashMap iteration order; locale / id names are pushed unescaped "
-                "(identifier charset assumed).",
+                "terminator character (cannot close the script element or leave the literal); that "
+                "RegisterCtx::to_array as a whole returns `window.__LEPTOS_I18N_TRANSLATIONS = [` + one object "
+                "{\"locale\":..,\"id\":..|null,\"values\":[its strings in order]} per registered unit (each unit once, "
+                "nothing else, comma separated in the map's iteration order) + `];`; and that the client side "
+                "(init_translations, feature hydrate; statement range lifted by rule E3) re-emits exactly the "
+                "script of the units it received.",
+        "note": "Not covered: which units a render registers (generated code calling RegisterCtx::register); the "
+                "web_sys / serde_wasm_bindgen glue around the lifted statements of init_translations. Assumed: "
+                "Mutex::lock hands out the protected map (shim), the hash/eq of the generated Locale and unit-id types "
+                "obey vstd's key model, locale / id names need no escaping (identifier charset).",
         "design_ref": "DESIGN.md section 3, C17",
     },
     "C15": {
